@@ -145,7 +145,7 @@ func (e *Exec) resolveCallee(f *frame, c *ssa.CallCommon) calleeInfo {
 			if g, ok := u.X.(*ssa.Global); ok {
 				key := g.Pkg.Pkg.Path() + "." + g.Name()
 				if con, ok := e.W.Contracts[key]; ok {
-					return calleeInfo{kind: ckContract, con: con, name: key}
+					return calleeInfo{kind: ckContract, con: con, name: key, fn: e.W.FnOf[con]}
 				}
 			}
 		}
@@ -410,6 +410,19 @@ func (e *Exec) resolveMod(env *Env, m ModItem) (targets []modTarget, everything 
 		e.ensureSortDecl(ty)
 		e.regHeap("G."+m.Name, ty.Sort())
 		return []modTarget{{heap: "G." + m.Name}}, false
+	case "ghostelem":
+		g, ok := e.W.Ghosts[m.Name]
+		if !ok {
+			env.fail("modifies: unknown ghost %s", m.Name)
+		}
+		ty, err := e.W.resolveType(g.T, g.Imports, "")
+		if err != nil {
+			env.fail("%v", err)
+		}
+		e.ensureSortDecl(ty)
+		e.regHeap("G."+m.Name, ty.Sort())
+		idx := env.elab(m.X)
+		return []modTarget{{heap: "G." + m.Name, obj: idx.T}}, false
 	case "heap":
 		gt, err := e.W.resolveGoType(m.T, env.Imports, env.Pkg)
 		if err != nil {
